@@ -69,6 +69,7 @@ type Ctx struct {
 	curSpec  *specRun
 	modSink  *[]modTarget
 	wfDone   map[*Term]bool
+	aliveDone map[[2]*Term]bool
 	curMk    *markerInfo
 	reads    []readEvent
 	prefer   []*Term
@@ -775,6 +776,9 @@ func (fr *Frame) runLoop(li *LoopInfo) {
 			nm = phi.Name()
 		}
 		hv := fr.havocVal(phi.Type(), nm+"@"+tag)
+		if hv.T != nil {
+			fr.aliveNow(hv.T, phi.Type())
+		}
 		phiHavoc[phi] = hv
 		fr.vals[phi] = hv
 	}
@@ -877,6 +881,51 @@ func (fr *Frame) havocVal(t types.Type, hint string) Val {
 	x := FreshVar(hint, sortOf(t))
 	fr.ctx.typeAssume(x, t, fr.curReach)
 	return Val{T: x}
+}
+
+// aliveNow: a reference value that exists now refers to an object allocated by now (or is nil).
+func (fr *Frame) aliveNow(x *Term, t types.Type) {
+	c := fr.ctx
+	if fr.inQuant || hasBound(x) {
+		return
+	}
+	alive := fr.cur.get("alive", SArray(SRef, SBool))
+	switch u := t.Underlying().(type) {
+	case *types.Pointer:
+		c.assume(Or(Eq(x, BVLit(0, 64)), Select(alive, x)))
+	case *types.Slice:
+		a := DataField_(x, 0)
+		c.assume(Or(Eq(a, BVLit(0, 64)), Select(alive, a)))
+	case *types.Struct:
+		if opaqueStruct(t) {
+			return
+		}
+		for i := 0; i < u.NumFields(); i++ {
+			if hasPointers(u.Field(i).Type(), 0) {
+				fr.aliveNow(DataField_(x, i), u.Field(i).Type())
+			}
+		}
+	}
+}
+
+// markAlive: after a call, the references it returned denote allocated objects.
+func (fr *Frame) markAlive(x *Term, t types.Type) {
+	alive := fr.cur.get("alive", SArray(SRef, SBool))
+	switch u := t.Underlying().(type) {
+	case *types.Pointer:
+		fr.cur.set("alive", Store(alive, x, TTrue))
+	case *types.Slice:
+		fr.cur.set("alive", Store(alive, DataField_(x, 0), TTrue))
+	case *types.Struct:
+		if opaqueStruct(t) {
+			return
+		}
+		for i := 0; i < u.NumFields(); i++ {
+			if hasPointers(u.Field(i).Type(), 0) {
+				fr.markAlive(DataField_(x, i), u.Field(i).Type())
+			}
+		}
+	}
 }
 
 // typeAssume adds the invariants every Go value of type t satisfies (slice header well-formedness).
